@@ -295,7 +295,7 @@ Proof.
   assert (Hq : real fs q) by (rewrite Hb in Hreal; exact (real_prefix _ _ _ Hreal)).
   assert (Hd : dotfree q). { apply clean_dotfree. intros c Hc. apply Hclean. rewrite Hb. apply in_or_app. left. exact Hc. }
   pose proof (kwalk_real fs false k_budget q [] Hq Hd Hne) as K. cbn [app] in K.
-  unfold p_is_symlink, klstat.
+  unfold p_is_symlink, p_lstat_link, klstat.
   destruct (kwalk k_budget fs false [] q) as [p n| | | |]; try reflexivity.
   destruct n; try reflexivity. destruct K.
 Qed.
